@@ -16,7 +16,7 @@
 #include <ext/concurrence.h>
 
 namespace vsim {
-extern void (*g_yieldHook)(const void *addr, int kind); // kind: 0 load, 1 store, 2 rmw
+extern void (*g_yieldHook)(const void *addr, int kind); // kind: 0 before a load, 1 before a store, 2 before a read-modify-write, 3 after a store/rmw (the new value is visible, the plain code that follows has not run yet)
 inline void yieldPoint(const void *a, int k) { if (__builtin_expect(g_yieldHook != nullptr, 0)) g_yieldHook(a, k); }
 }
 
@@ -34,30 +34,30 @@ struct sim_atomic {
     bool is_lock_free() const noexcept { return v.is_lock_free(); }
 
     operator T() const noexcept { vsim::yieldPoint(this, 0); return v.load(); }
-    T operator=(T d) noexcept { vsim::yieldPoint(this, 1); v.store(d); return d; }
+    T operator=(T d) noexcept { vsim::yieldPoint(this, 1); v.store(d); vsim::yieldPoint(this, 3); return d; }
     T load(memory_order m = memory_order_seq_cst) const noexcept { vsim::yieldPoint(this, 0); return v.load(m); }
-    void store(T d, memory_order m = memory_order_seq_cst) noexcept { vsim::yieldPoint(this, 1); v.store(d, m); }
-    T exchange(T d, memory_order m = memory_order_seq_cst) noexcept { vsim::yieldPoint(this, 2); return v.exchange(d, m); }
-    bool compare_exchange_weak(T &e, T d, memory_order s = memory_order_seq_cst) noexcept { vsim::yieldPoint(this, 2); return v.compare_exchange_strong(e, d, s); }
-    bool compare_exchange_weak(T &e, T d, memory_order s, memory_order f) noexcept { vsim::yieldPoint(this, 2); return v.compare_exchange_strong(e, d, s, f); }
-    bool compare_exchange_strong(T &e, T d, memory_order s = memory_order_seq_cst) noexcept { vsim::yieldPoint(this, 2); return v.compare_exchange_strong(e, d, s); }
-    bool compare_exchange_strong(T &e, T d, memory_order s, memory_order f) noexcept { vsim::yieldPoint(this, 2); return v.compare_exchange_strong(e, d, s, f); }
+    void store(T d, memory_order m = memory_order_seq_cst) noexcept { vsim::yieldPoint(this, 1); v.store(d, m); vsim::yieldPoint(this, 3); }
+    T exchange(T d, memory_order m = memory_order_seq_cst) noexcept { vsim::yieldPoint(this, 2); auto r_ = (v.exchange(d, m)); vsim::yieldPoint(this, 3); return r_; }
+    bool compare_exchange_weak(T &e, T d, memory_order s = memory_order_seq_cst) noexcept { vsim::yieldPoint(this, 2); auto r_ = (v.compare_exchange_strong(e, d, s)); vsim::yieldPoint(this, 3); return r_; }
+    bool compare_exchange_weak(T &e, T d, memory_order s, memory_order f) noexcept { vsim::yieldPoint(this, 2); auto r_ = (v.compare_exchange_strong(e, d, s, f)); vsim::yieldPoint(this, 3); return r_; }
+    bool compare_exchange_strong(T &e, T d, memory_order s = memory_order_seq_cst) noexcept { vsim::yieldPoint(this, 2); auto r_ = (v.compare_exchange_strong(e, d, s)); vsim::yieldPoint(this, 3); return r_; }
+    bool compare_exchange_strong(T &e, T d, memory_order s, memory_order f) noexcept { vsim::yieldPoint(this, 2); auto r_ = (v.compare_exchange_strong(e, d, s, f)); vsim::yieldPoint(this, 3); return r_; }
 
     // arithmetic members exist only where the underlying atomic<U> has them (SFINAE on a dependent U)
-    template <class U = T> auto fetch_add(U d, memory_order m = memory_order_seq_cst) noexcept -> decltype(std::declval<atomic<U>&>().fetch_add(d, m)) { vsim::yieldPoint(this, 2); return v.fetch_add(d, m); }
-    template <class U = T> auto fetch_sub(U d, memory_order m = memory_order_seq_cst) noexcept -> decltype(std::declval<atomic<U>&>().fetch_sub(d, m)) { vsim::yieldPoint(this, 2); return v.fetch_sub(d, m); }
-    template <class U = T> auto fetch_and(U d, memory_order m = memory_order_seq_cst) noexcept -> decltype(std::declval<atomic<U>&>().fetch_and(d, m)) { vsim::yieldPoint(this, 2); return v.fetch_and(d, m); }
-    template <class U = T> auto fetch_or(U d, memory_order m = memory_order_seq_cst) noexcept -> decltype(std::declval<atomic<U>&>().fetch_or(d, m)) { vsim::yieldPoint(this, 2); return v.fetch_or(d, m); }
-    template <class U = T> auto fetch_xor(U d, memory_order m = memory_order_seq_cst) noexcept -> decltype(std::declval<atomic<U>&>().fetch_xor(d, m)) { vsim::yieldPoint(this, 2); return v.fetch_xor(d, m); }
-    template <class U = T> auto operator++() noexcept -> decltype(++std::declval<atomic<U>&>()) { vsim::yieldPoint(this, 2); return ++v; }
-    template <class U = T> auto operator++(int) noexcept -> decltype(std::declval<atomic<U>&>()++) { vsim::yieldPoint(this, 2); return v++; }
-    template <class U = T> auto operator--() noexcept -> decltype(--std::declval<atomic<U>&>()) { vsim::yieldPoint(this, 2); return --v; }
-    template <class U = T> auto operator--(int) noexcept -> decltype(std::declval<atomic<U>&>()--) { vsim::yieldPoint(this, 2); return v--; }
-    template <class U = T> auto operator+=(U d) noexcept -> decltype(std::declval<atomic<U>&>() += d) { vsim::yieldPoint(this, 2); return v += d; }
-    template <class U = T> auto operator-=(U d) noexcept -> decltype(std::declval<atomic<U>&>() -= d) { vsim::yieldPoint(this, 2); return v -= d; }
-    template <class U = T> auto operator&=(U d) noexcept -> decltype(std::declval<atomic<U>&>() &= d) { vsim::yieldPoint(this, 2); return v &= d; }
-    template <class U = T> auto operator|=(U d) noexcept -> decltype(std::declval<atomic<U>&>() |= d) { vsim::yieldPoint(this, 2); return v |= d; }
-    template <class U = T> auto operator^=(U d) noexcept -> decltype(std::declval<atomic<U>&>() ^= d) { vsim::yieldPoint(this, 2); return v ^= d; }
+    template <class U = T> auto fetch_add(U d, memory_order m = memory_order_seq_cst) noexcept -> decltype(std::declval<atomic<U>&>().fetch_add(d, m)) { vsim::yieldPoint(this, 2); auto r_ = (v.fetch_add(d, m)); vsim::yieldPoint(this, 3); return r_; }
+    template <class U = T> auto fetch_sub(U d, memory_order m = memory_order_seq_cst) noexcept -> decltype(std::declval<atomic<U>&>().fetch_sub(d, m)) { vsim::yieldPoint(this, 2); auto r_ = (v.fetch_sub(d, m)); vsim::yieldPoint(this, 3); return r_; }
+    template <class U = T> auto fetch_and(U d, memory_order m = memory_order_seq_cst) noexcept -> decltype(std::declval<atomic<U>&>().fetch_and(d, m)) { vsim::yieldPoint(this, 2); auto r_ = (v.fetch_and(d, m)); vsim::yieldPoint(this, 3); return r_; }
+    template <class U = T> auto fetch_or(U d, memory_order m = memory_order_seq_cst) noexcept -> decltype(std::declval<atomic<U>&>().fetch_or(d, m)) { vsim::yieldPoint(this, 2); auto r_ = (v.fetch_or(d, m)); vsim::yieldPoint(this, 3); return r_; }
+    template <class U = T> auto fetch_xor(U d, memory_order m = memory_order_seq_cst) noexcept -> decltype(std::declval<atomic<U>&>().fetch_xor(d, m)) { vsim::yieldPoint(this, 2); auto r_ = (v.fetch_xor(d, m)); vsim::yieldPoint(this, 3); return r_; }
+    template <class U = T> auto operator++() noexcept -> decltype(++std::declval<atomic<U>&>()) { vsim::yieldPoint(this, 2); auto r_ = (++v); vsim::yieldPoint(this, 3); return r_; }
+    template <class U = T> auto operator++(int) noexcept -> decltype(std::declval<atomic<U>&>()++) { vsim::yieldPoint(this, 2); auto r_ = (v++); vsim::yieldPoint(this, 3); return r_; }
+    template <class U = T> auto operator--() noexcept -> decltype(--std::declval<atomic<U>&>()) { vsim::yieldPoint(this, 2); auto r_ = (--v); vsim::yieldPoint(this, 3); return r_; }
+    template <class U = T> auto operator--(int) noexcept -> decltype(std::declval<atomic<U>&>()--) { vsim::yieldPoint(this, 2); auto r_ = (v--); vsim::yieldPoint(this, 3); return r_; }
+    template <class U = T> auto operator+=(U d) noexcept -> decltype(std::declval<atomic<U>&>() += d) { vsim::yieldPoint(this, 2); auto r_ = (v += d); vsim::yieldPoint(this, 3); return r_; }
+    template <class U = T> auto operator-=(U d) noexcept -> decltype(std::declval<atomic<U>&>() -= d) { vsim::yieldPoint(this, 2); auto r_ = (v -= d); vsim::yieldPoint(this, 3); return r_; }
+    template <class U = T> auto operator&=(U d) noexcept -> decltype(std::declval<atomic<U>&>() &= d) { vsim::yieldPoint(this, 2); auto r_ = (v &= d); vsim::yieldPoint(this, 3); return r_; }
+    template <class U = T> auto operator|=(U d) noexcept -> decltype(std::declval<atomic<U>&>() |= d) { vsim::yieldPoint(this, 2); auto r_ = (v |= d); vsim::yieldPoint(this, 3); return r_; }
+    template <class U = T> auto operator^=(U d) noexcept -> decltype(std::declval<atomic<U>&>() ^= d) { vsim::yieldPoint(this, 2); auto r_ = (v ^= d); vsim::yieldPoint(this, 3); return r_; }
 };
 
 struct sim_atomic_flag {
@@ -66,8 +66,8 @@ struct sim_atomic_flag {
     constexpr sim_atomic_flag(bool) noexcept : f() {}
     sim_atomic_flag(const sim_atomic_flag &) = delete;
     sim_atomic_flag &operator=(const sim_atomic_flag &) = delete;
-    bool test_and_set(memory_order m = memory_order_seq_cst) noexcept { vsim::yieldPoint(this, 2); return f.test_and_set(m); }
-    void clear(memory_order m = memory_order_seq_cst) noexcept { vsim::yieldPoint(this, 1); f.clear(m); }
+    bool test_and_set(memory_order m = memory_order_seq_cst) noexcept { vsim::yieldPoint(this, 2); auto r_ = (f.test_and_set(m)); vsim::yieldPoint(this, 3); return r_; }
+    void clear(memory_order m = memory_order_seq_cst) noexcept { vsim::yieldPoint(this, 1); f.clear(m); vsim::yieldPoint(this, 3); }
 };
 
 } // namespace std
